@@ -16,7 +16,7 @@ import Dhcp.Driver.ClientLTS
   `client4m|client6m …`: multi-caller scenarios on the interleaving model, see
   Dhcp/Driver/ClientLTS.lean.
 -/
-namespace Dhcp.Driver
+namespace Dhcp.Driver.Cli
 open Dhcp.Client
 
 def parseEvKind (matchNil : Bool) : String → Option Timed.EvKind
@@ -72,4 +72,4 @@ def stepClient (op : String) (args : List String) : Option String :=
   | "client4" | "client6" => stepTimed args
   | _ => stepClientLTS op args
 
-end Dhcp.Driver
+end Dhcp.Driver.Cli
